@@ -29,10 +29,49 @@ theorem tables_match_source :
       nameValue e.1 { major := 3, minor := 12, platform := "linux", alwaysTrue := ["ATN"], alwaysFalse := ["AFN"] } == e.2) = true := by
   decide
 
+set_option maxRecDepth 8192 in
+/-- `Gen.openSliceFix` (does the tree's consider_sys_version_info have the open-ended-slice rule?) is the right
+    switch: on the regenerated probe grid around that rule (open-ended and closed slices × 6 operators × equal /
+    unequal literal × both operand orders, target 3.12) the model variant it selects returns what the real
+    function returned. -/
+theorem open_slice_rule_matches_source :
+    Gen.openSliceProbes.length = 144 ∧ Gen.openSliceProbes.all (fun e =>
+      versionValue { major := 3, minor := 12, platform := "linux", alwaysTrue := [], alwaysFalse := [],
+                     openSliceFix := Gen.openSliceFix } e.1 e.2.1 e.2.2.1 == e.2.2.2) = true := by
+  decide
+
 /-! ## sys.version_info tests -/
 
-/-- **version_test_exact_partial.**  A single comparison that consider_sys_version_info decides, and that is
-    not of the F4 shape, has exactly the decided value when it is evaluated on the target. -/
+/-- **version_test_exact** — for consider_sys_version_info *with* the open-ended-slice rule
+    (harness/c12/proposed_fix_F4.diff, `Options.openSliceFix = true`): every comparison it decides has exactly
+    the decided value when it is evaluated on the target; no shape is excluded. -/
+theorem version_test_exact (o : Options) (env : Env) (henv : EnvFor o env)
+    (l : Operand) (op : Op) (r : Operand)
+    (hdec : considerSysVersionInfoFix l op r o.major o.minor ≠ .unknown) :
+    eval env (.cmp l op r) = some (considerSysVersionInfoFix l op r o.major o.minor == .alwaysTrue) := by
+  obtain ⟨⟨mc, lv, se, hvi⟩, _⟩ := henv
+  exact version_cmp_exact_fixed env o.major o.minor mc se lv hvi l op r _ rfl hdec
+
+/-- The same for **the tree being checked** (`Gen.openSliceFix` says which rule it has, `tables_match_source`
+    ties that flag to the source): exact, with the F4 shape excluded only while the tree lacks the rule. -/
+theorem version_test_exact_source (o : Options) (env : Env) (henv : EnvFor o env)
+    (hsrc : o.openSliceFix = Gen.openSliceFix) (l : Operand) (op : Op) (r : Operand)
+    (hdec : versionValue o l op r ≠ .unknown)
+    (hshape : Gen.openSliceFix = false → f4Shape l op r o.major o.minor = false) :
+    eval env (.cmp l op r) = some (versionValue o l op r == .alwaysTrue) := by
+  obtain ⟨⟨mc, lv, se, hvi⟩, _⟩ := henv
+  unfold versionValue at hdec ⊢
+  cases hfix : o.openSliceFix with
+  | true =>
+    simp only [hfix, if_true] at hdec ⊢
+    exact version_cmp_exact_fixed env o.major o.minor mc se lv hvi l op r _ rfl hdec
+  | false =>
+    simp only [hfix, Bool.false_eq_true, if_false] at hdec ⊢
+    exact version_cmp_exact env o.major o.minor mc se lv hvi l op r _ rfl hdec (hshape (hsrc ▸ hfix))
+
+/-- **version_test_exact_partial** — for consider_sys_version_info *without* that rule (the code before the fix):
+    a single comparison it decides, and that is not of the F4 shape, has exactly the decided value when it is
+    evaluated on the target. -/
 theorem version_test_exact_partial (o : Options) (env : Env) (henv : EnvFor o env)
     (l : Operand) (op : Op) (r : Operand)
     (hdec : considerSysVersionInfo l op r o.major o.minor ≠ .unknown)
@@ -58,8 +97,8 @@ def run312 : Env :=
 
 theorem envFor312 : EnvFor target312 run312 := ⟨⟨0, "final", 0, rfl⟩, rfl⟩
 
-/-- **not_version_test_exact** (F4): `sys.version_info > (3, 12)` for target 3.12 is ALWAYS_FALSE for mypy
-    and True on Python 3.12.0. -/
+/-- **not_version_test_exact** (F4; the rule without the fix): `sys.version_info > (3, 12)` for target 3.12 is
+    ALWAYS_FALSE for mypy and True on Python 3.12.0. -/
 theorem not_version_test_exact :
     ¬ (∀ (o : Options) (env : Env) (l : Operand) (op : Op) (r : Operand), EnvFor o env →
         considerSysVersionInfo l op r o.major o.minor ≠ .unknown →
@@ -80,6 +119,15 @@ example : considerSysVersionInfo (.tuple [.int 3, .int 12]) .lt .versionInfo 3 1
     eval run312 (.cmp (.tuple [.int 3, .int 12]) .lt .versionInfo) = some true := by decide
 example : considerSysVersionInfo (.slice (some (.int 1)) none none) .eq (.tuple [.int 12]) 3 12 = .alwaysTrue ∧
     eval run312 (.cmp (.slice (some (.int 1)) none none) .eq (.tuple [.int 12])) = some false := by decide
+-- with the rule the same tests come out right (and the ordinary ones are unchanged)
+example : considerSysVersionInfoFix .versionInfo .gt (.tuple [.int 3, .int 12]) 3 12 = .alwaysTrue ∧
+    considerSysVersionInfoFix .versionInfo .eq (.tuple [.int 3, .int 12]) 3 12 = .alwaysFalse ∧
+    considerSysVersionInfoFix (.slice (some (.int 1)) none none) .ne (.tuple [.int 12]) 3 12 = .alwaysTrue ∧
+    considerSysVersionInfoFix (.tuple [.int 3, .int 12]) .ge .versionInfo 3 12 = .alwaysFalse ∧
+    considerSysVersionInfoFix .versionInfo .ge (.tuple [.int 3, .int 12]) 3 12 = .alwaysTrue ∧
+    considerSysVersionInfoFix .versionInfo .lt (.tuple [.int 3, .int 12]) 3 12 = .alwaysFalse ∧
+    considerSysVersionInfoFix (.slice none (some (.int 2)) none) .eq (.tuple [.int 3, .int 12]) 3 12 = .alwaysTrue ∧
+    considerSysVersionInfoFix .versionInfo .eq (.tuple [.int 3]) 3 12 = .unknown := by decide
 -- non-vacuity of the partial theorem: ordinary tests are decided and are outside the excluded shape
 example : considerSysVersionInfo .versionInfo .ge (.tuple [.int 3, .int 12]) 3 12 = .alwaysTrue ∧
     f4Shape .versionInfo .ge (.tuple [.int 3, .int 12]) 3 12 = false := by decide
